@@ -153,8 +153,13 @@ Print Assumptions C09_core_is_parse.
    what the holder of message k reads: header cell and, through its pointer, property word. *)
 
 (* message id, serial, package total and number, phone of a delivered message never change, over
-   every history - in every variant: no store touches those fields (they are written only when the
-   cell is allocated) *)
+   every history.  CAVEAT: this holds in EVERY variant, the defective ones included, because no store
+   of the model writes a listed field (they are written only when the cell is allocated; neither
+   repaired defect ever touched one): the theorem is exactly as strong as the model's enumeration of
+   stores (source scan + hdr correspondence).  The statements that DISCRIMINATE the current code from
+   the repaired sharings are C09_header_owned / C09_header_undisturbed (whole header, hcur only) and
+   the C09_refuted_shared_* theorems, which refute `header_disturbed` (a whole-view inequality), not
+   the stability of the listed fields *)
 Theorem C09_header_stable : forall v es1 es2 k view1, hview (hrun v es1) k = Some view1 ->
   exists view2, hview (hrun v (es1 ++ es2)) k = Some view2 /\ listed view2 = listed view1.
 Proof. exact listed_stable. Qed.
